@@ -10,6 +10,7 @@ PROPERTY = "C06"
 
 DIGESTS = [("SHA_256", "sha-256", "sha256", 32), ("SHA_384", "sha-384", "sha384", 48), ("SHA_512", "sha-512", "sha512", 64), ("SHAKE128", "shake128", "shake128", 16), ("SHAKE256", "shake256", "shake256", 32)]
 PT_LENGTHS = [0, 1, 15, 16, 17, 33]
+PT_LENGTHS_DEEP = PT_LENGTHS + [255, 256, 1024]
 
 META = {
     "files": ["ncs/encrypt_script.py", "ncs/basic_kms.py", "suit_generator/cmd_encrypt.py", "suit_generator/suit/security.py"],
@@ -37,13 +38,16 @@ META = {
 
 
 def obligations(tier):
-    return [
-        Ob("real_crypto_validation", "V", "v_real", {}, 300, "real key: CLI encrypt, independent AESGCM.decrypt with published IV and reference AAD (wiring; observation)", twin=False, weight=10),
-        Ob("encrypt_and_generate", "E1", "h_encrypt", {"cli": False}, 600, "library: 6 lengths x 5 digests x key id < 2^32", weight=60),
-        Ob("encrypt_and_generate_cli", "E1", "h_encrypt", {"cli": True}, 600, "CLI with files: four artifacts consistent", weight=60),
-        Ob("info_accepted_by_create", "E1", "h_info_roundtrip", {}, 600, "emitted info through suit-parameter-encryption-info {file}: bytes unchanged, parse shows the same structure", weight=40),
-        Ob("generate_info", "E1", "h_generate_info", {}, 600, "blob of 28..40 opaque bytes: iv|tag|ct split without altering a byte; A256KW requires a CEK", weight=40),
-    ]
+    obs = [Ob("real_crypto_validation", "V", "v_real", {}, 300, "real key: CLI encrypt, independent AESGCM.decrypt with published IV and reference AAD (wiring; observation)", twin=False, weight=10)]
+    deep = tier == "thorough"
+    lens = "9 lengths incl. 255/256/1024" if deep else "6 lengths"
+    # split on the key-name selector (the union of the parts is the stated bound)
+    for k in range(len(KEY_NAMES)):
+        obs.append(Ob(f"encrypt_and_generate_k{k}", "E1", "h_encrypt", {"cli": False, "fix": {"key_name": k}, "deep": deep}, 900, f"library, key name {KEY_NAMES[k]!r} with decoy neighbours: {lens} x 5 digests x key id < 2^32", weight=60))
+        obs.append(Ob(f"encrypt_and_generate_cli_k{k}", "E1", "h_encrypt", {"cli": True, "fix": {"key_name": k}, "deep": deep}, 900, f"CLI with files, key name {KEY_NAMES[k]!r} with decoy neighbours, output directory fresh or holding longer stale artifacts: four artifacts consistent; {lens} x 5 digests x key id < 2^32", weight=90))
+    obs.append(Ob("info_accepted_by_create", "E1", "h_info_roundtrip", {}, 600, "emitted info through suit-parameter-encryption-info {file}: bytes unchanged, parse shows the same structure", weight=40))
+    obs.append(Ob("generate_info", "E1", "h_generate_info", {}, 600, "blob of 28..40 opaque bytes: iv|tag|ct split without altering a byte; A256KW requires a CEK", weight=40))
+    return obs
 
 
 # ------------------------------------------------------------------------------------------------ environment
@@ -70,6 +74,9 @@ def _env():
 
     hexprov.install(CM)
     fs = stubs.FS()
+    from vlib import vfs
+
+    vfs.install(fs)  # library-level file-system entry points (pathlib, os.stat, os.open, ...) are answered by fs as well
 
     class AESGCMStub:
         def __init__(self, key):
@@ -103,7 +110,7 @@ def _env():
 
     def init_kms_backend(self, kms_script, context):
         self.kms = BK.SuitKMS()
-        self.kms.keys_directory = pathlib.PurePosixPath("/keys")
+        self.kms.keys_directory = pathlib.Path("/keys")
 
     ES.Encryptor.init_kms_backend = init_kms_backend
     CE._import_encryptor = lambda script: ES.Encryptor()
@@ -124,18 +131,22 @@ def _pick_len(chx):
     return chx.pick("pt_len", PT_LENGTHS)
 
 
-def h_encrypt(cli=False, exclude=()):
+def h_encrypt(cli=False, exclude=(), fix=None, deep=False):
     BK, ES, CE, SE, fs, stubs = _env()
     from suit_generator.suit_encrypt_script_base import SuitDigestAlgorithms, SuitKWAlgorithms
 
     from vlib import cbormodel, chx, refenc
+
+    chx.FIXED.clear()
+    chx.FIXED.update(fix or {})
+    lengths = PT_LENGTHS_DEEP if deep else PT_LENGTHS
 
     def harness():
         cbormodel.reset()
         stubs.HashLog.reset()
         AesLog.CALLS, AesLog.URANDOM = [], []
         kid = chx.sym_int("key_id", 0, 2**32 - 1)
-        n = _pick_len(chx)
+        n = chx.pick("pt_len", lengths)
         di = chx.sym_sel("digest", len(DIGESTS))
         member, value, cname, size = DIGESTS[0]
         for i, dg in enumerate(DIGESTS):
@@ -144,10 +155,20 @@ def h_encrypt(cli=False, exclude=()):
         pt = chx.sym_bytes("plaintext", n)
         key = chx.sym_bytes("key", 32)
         fs.names, fs.contents, fs.writes = [], [], []
-        kname = chx.pick("key_name", ["fwkey", "firmware-key-0001"])
+        kname = chx.pick("key_name", KEY_NAMES)
         fs.add("/keys/" + kname + ".bin", key)
+        # neighbours a wrong name resolution could pick up instead (other suffix handling, missing suffix): distinct contents
+        for j, dn in enumerate(decoy_names(kname)):
+            fs.add("/keys/" + dn, chx.sym_bytes("decoy%d_" % j, 32))
+        stale = False
         if cli:
             fs.add("fw.bin", pt)
+            stale = chx.sym_bool("stale_outputs")
+            if stale:
+                # an earlier run left longer artifacts in the same output directory
+                for an, ln_ in STALE:
+                    fs.add(os.path.join("out", an), b"\xee" * ln_ if an.endswith(".bin") else "9" * ln_)
+            fs.dirs.append("out")
             CE.main(encrypt_subcommand="encrypt-and-generate", encrypt_script="e.py", firmware="fw.bin", key_name=kname, key_id=kid, context=None, hash_alg=value, kw_alg="direct", kms_script="k.py", output_dir="out")
             content = fs.written(os.path.join("out", "encrypted_content.bin"))
             info = fs.written(os.path.join("out", "suit_encryption_info.bin"))
@@ -172,16 +193,31 @@ def h_encrypt(cli=False, exclude=()):
                 and aad == refenc.enc_structure(protected)
                 and content == out[n:] + out[:n]
                 and info == exp_info
-                and size_txt == str(n)
+                and (size_txt.encode() if isinstance(size_txt, str) else size_txt) == str(n).encode()
                 and len(hl) == 1
                 and hl[0][0] == cname
                 and hl[0][1] == size
                 and hl[0][2] == pt
                 and digest == hl[0][3]
             )
-        return chx.conclude(ok, key_id=kid, pt_len=n, digest=di)
+        return chx.conclude(ok, key_id=kid, pt_len=n, digest=di, stale_outputs=stale)
 
     return harness
+
+
+# key names: plain, with dashes/digits, with dots (suffix-like parts), ending in the key-file suffix itself, hidden-file style
+KEY_NAMES = ["fwkey", "firmware-key-0001", "fw_enc.v2", "k.bin", ".hidden"]
+STALE = [("encrypted_content.bin", 200), ("suit_encryption_info.bin", 120), ("plain_text_digest.bin", 80), ("plain_text_size.txt", 12)]
+
+
+def decoy_names(kname):
+    """Files next to `<kname>.bin` that a wrong resolution of the key name would open."""
+    out = [kname]
+    stem = kname.rsplit(".", 1)[0] if "." in kname[1:] else None
+    if stem:
+        out.append(stem + ".bin")
+        out.append(stem)
+    return [n for n in out if n != kname + ".bin"]
 
 
 def h_info_roundtrip(exclude=()):
@@ -298,7 +334,7 @@ def check_artifacts(outdir, plaintext, key, kid, hash_name):
     return None
 
 
-def _real_run(d, plaintext, key, kid, hash_name):
+def _real_run(d, plaintext, key, kid, hash_name, kname="fwkey", stale=False):
     import suit_generator.cmd_encrypt as CE
     from vlib.repoenv import REPO
 
@@ -306,10 +342,15 @@ def _real_run(d, plaintext, key, kid, hash_name):
     od = os.path.join(d, "out")
     os.makedirs(kd, exist_ok=True)
     os.makedirs(od, exist_ok=True)
-    open(os.path.join(kd, "fwkey.bin"), "wb").write(key)
+    open(os.path.join(kd, kname + ".bin"), "wb").write(key)
+    for j, dn in enumerate(decoy_names(kname)):
+        open(os.path.join(kd, dn), "wb").write(bytes((i * 11 + 40 + j) & 0xFF for i in range(32)))
+    if stale:
+        for an, ln_ in STALE:
+            open(os.path.join(od, an), "wb").write((b"\xee" if an.endswith(".bin") else b"9") * ln_)
     fw = os.path.join(d, "fw.bin")
     open(fw, "wb").write(plaintext)
-    CE.main(encrypt_subcommand="encrypt-and-generate", encrypt_script=os.path.join(REPO, "ncs", "encrypt_script.py"), firmware=fw, key_name="fwkey", key_id=kid, context=kd, hash_alg=hash_name, kw_alg="direct", kms_script=os.path.join(REPO, "ncs", "basic_kms.py"), output_dir=od)
+    CE.main(encrypt_subcommand="encrypt-and-generate", encrypt_script=os.path.join(REPO, "ncs", "encrypt_script.py"), firmware=fw, key_name=kname, key_id=kid, context=kd, hash_alg=hash_name, kw_alg="direct", kms_script=os.path.join(REPO, "ncs", "basic_kms.py"), output_dir=od)
     return od
 
 
@@ -345,13 +386,15 @@ def replay(obligation, params, cex):
     d = tempfile.mkdtemp(prefix="verif-c06r-")
     try:
         kid = cex.get("key_id", 0)
-        if obligation in ("encrypt_and_generate", "encrypt_and_generate_cli", "info_accepted_by_create"):
+        if obligation.startswith("encrypt_and_generate"):
+            obligation = "encrypt_and_generate"
+        if obligation in ("encrypt_and_generate", "info_accepted_by_create"):
             ln = cex.get("pt_len", 3)
             hn = DIGESTS[cex.get("digest", 0)][1]
             pt = bytes((i * 5 + 2) & 0xFF for i in range(ln))
             key = bytes((i * 3 + 9) & 0xFF for i in range(32))
             try:
-                od = _real_run(d, pt, key, kid, hn)
+                od = _real_run(d, pt, key, kid, hn, kname=cex.get("key_name", "fwkey"), stale=bool(cex.get("stale_outputs")))
             except Exception as e:  # noqa
                 return dict(reproduced=True, detail=f"raises {type(e).__name__}: {e}")
             r = check_artifacts(od, pt, key, kid, hn)
